@@ -2,6 +2,7 @@ package c01world
 
 import (
 	"fmt"
+	"os"
 
 	"verifsim/worlds/chainkit"
 
@@ -640,6 +641,10 @@ func (fx *fixture) runCases() {
 	for _, g := range gens {
 		if fx.poisoned {
 			break
+		}
+		if os.Getenv("C01_GATES") != "" {
+			// aid for hand-written replays: position of this case's gate in the choice log
+			fmt.Fprintf(os.Stderr, "gate %-46s choice #%d\n", g.name, len(r.C.Log()))
 		}
 		if !r.C.Chance("case:"+g.name, 4, 5) {
 			continue
